@@ -61,6 +61,21 @@ theorem fullNeeded_cleared_only_by_close (A : DbAlg D) (s : CS D) (op : COp D)
         | rejected => simp [hh, putSink, FS.set, h1] at h2
         | full d ws v => cases v <;> simp [hh, putSink, FS.set, h1] at h2 ⊢
         | inc ws => simp [hh, putSink, FS.set, h1] at h2 ⊢
+  | closeRenameFails h =>
+    simp only [stepOp, closeRenameFails] at h2
+    cases hk : getSink s h with
+    | none => simp [hk, h1] at h2
+    | some k =>
+      simp only [hk] at h2
+      cases ho : k.opened with
+      | false => simp [ho, h1] at h2
+      | true =>
+        simp only [ho, Bool.not_true, Bool.false_eq_true, if_false] at h2
+        cases hh : k.hdr with
+        | none => simp [hh, putSink, FS.set, h1] at h2
+        | rejected => simp [hh, putSink, FS.set, h1] at h2
+        | full d ws v => cases v <;> simp [hh, putSink, FS.set, h1] at h2
+        | inc ws => simp [hh, putSink, FS.set, h1] at h2
   | cancel h =>
     simp only [stepOp, cancel] at h2
     split at h2
